@@ -243,6 +243,9 @@ def entries():
                    lambda k: M.ClassifierAfterKMeans(estimator=[_logreg(), _dtc(2)][k], clus=_km([2, 3][k])),
                    [("c_n_clusters", v(2, 3)), ("c_n_init", v(1, 3)), ("e_random_state", v(0, 1))],
                    data_clf, ["predict", "predict_proba"], seed="none", bad=[("short y", _bad_short_y)]))
+    E.append(Entry("ClassifierAfterKMeans[L1]",
+                   lambda k: M.ClassifierAfterKMeans(estimator=_dtc(2), clus=M.KMeansL1L2(n_clusters=[2, 3][k], norm="L1", n_init=2, random_state=0)),
+                   [("c_n_clusters", v(2, 3))], data_clf, ["predict", "predict_proba"], seed="none"))
     E.append(Entry("ClassifierAfterKMeans[defaults]",
                    # no inner model given: each instance creates its own LogisticRegression / KMeans
                    lambda k: M.ClassifierAfterKMeans(c_n_clusters=[2, 3][k], e_max_iter=[200, 300][k]),
@@ -279,6 +282,12 @@ def entries():
                                                             transformer=M.PermutationReciprocalTransformer(random_state=[3, 4][k])),
                    [("classifier", [_logreg, lambda: _dtc(1)]), ("transformer__random_state", v(7, 8))],
                    data_clf3, ["predict", "predict_proba"], seed="rs", bad=[("short y", _bad_short_y)]))
+    E.append(Entry("TransformedTargetClassifier2[ycol]",
+                   # integer labels handed over as an (n, 1) column
+                   lambda k: M.TransformedTargetClassifier2(classifier=_dtc([2, 3][k]), transformer="permute"),
+                   [("classifier__max_depth", v(1, 3))],
+                   lambda rng: (lambda Xy: (Xy[0], Xy[1].reshape((-1, 1)).astype(numpy.int64)))(data_clf3(rng)),
+                   ["predict", "predict_proba"], seed="global"))
     E.append(Entry("TransferTransformer",
                    lambda k: M.TransferTransformer(_fitted_lr(k), method="predict", trainable=[False, True][k]),
                    [("trainable", v(True, False)), ("copy_estimator", v(False, True)), ("method", v("predict",))],
